@@ -1117,8 +1117,10 @@ def iter_timestamped_records(record: Record) -> Iterator[Record]:
 
     # yield a new record for each ``datetime`` field assigned as ``ts``.
     record_name = record._desc.name
+    original = record
     for field in dt_fields:
-        ts_record = TimestampRecord(getattr(record, field.name), field.name)
+        # always read the timestamp from the original record, ``record`` is re-bound below
+        ts_record = TimestampRecord(getattr(original, field.name), field.name)
         # we extend ``ts_record`` with original ``record`` so TSRecord info goes first.
         record = extend_record(ts_record, [record], name=record_name)
         yield record
